@@ -163,7 +163,13 @@ class _NormCtx:
         if rel == P and qual in KEEP:
             from sa.props._lib_c import norm_class
             orig = self._ctx.cls(rel, qual)
-            return inline_predicates(norm_class(self._ctx, rel, qual, keep=self._keep(qual)), orig, keep=self._keep(qual))
+            ncls = inline_predicates(norm_class(self._ctx, rel, qual, keep=self._keep(qual)), orig, keep=self._keep(qual))
+            if ncls is not orig and not getattr(ncls, "_sa_temps_done", False):
+                from sa.props._lib_f import subst_local_temps
+                for fn in [n for n in ncls.body if isinstance(n, (ast.FunctionDef, ast.AsyncFunctionDef))]:
+                    subst_local_temps(self._ctx, fn)          # `response = self.response; code = response.code` -> judged as self.response.code
+                ncls._sa_temps_done = True
+            return ncls
         return self._ctx.cls(rel, qual)
 
     def func(self, rel, qual, which=0):
@@ -175,6 +181,24 @@ class _NormCtx:
                     return n
             raise Abstain(f"{qual} vanished during normalisation")
         return self._ctx.func(rel, qual, which)
+
+
+class _TempCtx:
+    """the same ctx, but the methods of HTTP11ClientProtocol are handed out with their naming temporaries substituted (`failure = Failure(X(reason))` ... `d.errback(failure)`
+    is judged as `d.errback(Failure(X(reason)))`; `waiting = self._abortDeferreds` as the attribute itself)"""
+
+    def __init__(self, ctx):
+        self._ctx = ctx
+
+    def __getattr__(self, name):
+        return getattr(self._ctx, name)
+
+    def func(self, rel, qual, which=0):
+        f = self._ctx.func(rel, qual, which)
+        if rel == P and qual.startswith("HTTP11ClientProtocol."):
+            from sa.props._lib_f import temp_view
+            return temp_view(self._ctx, f)
+        return f
 
 
 def _norm_class_functions(nctx, clsname):
@@ -205,7 +229,7 @@ def check(ctx):
     with ctx.section("s-response"):
         structural(ctx, "response/*", "client/evaluated-histories (bounded)", _check_response_structural, ctx, mod)
     with ctx.section("protocol"):
-        _check_protocol(ctx, mod)
+        _check_protocol(_TempCtx(ctx), mod)
     with ctx.section("client-evaluated"):
         try:
             _client_evaluated(ctx)
